@@ -36,6 +36,7 @@ pub const F_FORMAT: u32 = 4; // formatter entry points
 pub const F_MODES: u32 = 8; // expr / statement-list file kinds
 pub const F_TREE: u32 = 16; // return the real tree as a Coq term (Green.v leg)
 pub const F_OPLOG: u32 = 32; // return the token-plumbing op log (TokenStream.v leg)
+pub const F_LOOPS: u32 = 128; // return the runs of the instrumented parser loops as a Coq term
 pub const F_LEXTERM: u32 = 64; // with F_LEX: also return the terminals as a Coq term
 
 pub struct Fail {
@@ -507,19 +508,36 @@ pub struct OracleOut {
     pub stats: TreeStats,
     pub tree: Option<String>,
     pub oplog: Option<String>,
+    /// runs of the instrumented parser loops as a Coq term (with F_OPLOG), and their counts
+    pub loops: Option<String>,
+    pub n_loop_runs: u64,
+    pub n_loop_iters: u64,
     pub error_free: bool,
 }
 
 /// Parser::parse_file on the real parser + the tree oracle.
-pub fn oracle(text: &str, want_tree: bool, want_oplog: bool, fails: &mut Vec<Fail>) -> Option<OracleOut> {
+pub fn oracle(
+    text: &str,
+    want_tree: bool,
+    want_oplog: bool,
+    want_loops: bool,
+    fails: &mut Vec<Fail>,
+) -> Option<OracleOut> {
     let r = catch(|| {
         let db = SimpleParserDatabase::default();
         let db = &db;
         let file_id = virtual_file(db, text, FileKind::Module);
         let mut diagnostics = DiagnosticsBuilder::default();
-        crate::hook::start(want_oplog);
+        // the log is always on: its loop events are an oracle of C09 on every input
+        crate::hook::start(true);
         let root = Parser::parse_file(db, &mut diagnostics, file_id, text).as_syntax_node();
-        let oplog = crate::hook::finish();
+        let log = crate::hook::finish_raw().unwrap_or_default();
+        let runs = crate::hook::loop_runs(&log);
+        let loop_fail = crate::hook::loop_no_progress(&runs);
+        let (n_loop_runs, n_loop_iters) =
+            (runs.len() as u64, runs.iter().map(|r| r.iters.len() as u64).sum::<u64>());
+        let oplog = want_oplog.then(|| crate::hook::to_coq(&log));
+        let loops = want_loops.then(|| crate::hook::loops_to_coq(&runs));
         let diagnostics = diagnostics.build();
         let mut w = Walk {
             db,
@@ -546,13 +564,27 @@ pub fn oracle(text: &str, want_tree: bool, want_oplog: bool, fails: &mut Vec<Fai
         let all = diagnostics.get_all();
         w.st.diags = all.len() as u64;
         let mut fs = std::mem::take(&mut w.fails);
+        if let Some(m) = loop_fail {
+            fs.push(mkfail("loop-no-progress", m));
+        }
         check_diags(text, &all, &mut fs, "parse_file");
         // rendering the diagnostics computes line/column positions from the spans
         if let Err(m) = catch(|| diagnostics.format(db)) {
             fs.push(mkfail("panic-diag-format", m));
         }
         let error_free = diagnostics.check_error_free().is_ok();
-        (fs, OracleOut { stats: w.st, tree: want_tree.then_some(term), oplog, error_free })
+        (
+            fs,
+            OracleOut {
+                stats: w.st,
+                tree: want_tree.then_some(term),
+                oplog,
+                loops,
+                n_loop_runs,
+                n_loop_iters,
+                error_free,
+            },
+        )
     });
     match r {
         Ok((fs, out)) => {
@@ -643,7 +675,7 @@ pub fn process(flags: u32, text: &str) -> Value {
         }
     }
     if flags & F_ORACLE != 0 {
-        if let Some(o) = oracle(text, flags & F_TREE != 0, flags & F_OPLOG != 0, &mut fails) {
+        if let Some(o) = oracle(text, flags & F_TREE != 0, flags & F_OPLOG != 0, flags & F_LOOPS != 0, &mut fails) {
             let s = &o.stats;
             resp["stats"] = json!({
                 "nodes": s.nodes, "tokens": s.tokens, "terminals": s.terminals,
@@ -657,6 +689,11 @@ pub fn process(flags: u32, text: &str) -> Value {
             if let Some(t) = o.oplog {
                 resp["oplog"] = json!(t);
             }
+            if let Some(t) = o.loops {
+                resp["loops"] = json!(t);
+            }
+            resp["n_loop_runs"] = json!(o.n_loop_runs);
+            resp["n_loop_iters"] = json!(o.n_loop_iters);
         }
     }
     if flags & F_MODES != 0 {
